@@ -14,6 +14,7 @@ import (
 	"github.com/bartossh/Computantis/src/spice"
 	"pgregory.net/rapid"
 
+	"verif/harness/ref"
 	"verif/harness/sim"
 )
 
@@ -67,7 +68,24 @@ func c08Build(c c08Case) (*sim.World, error) {
 		return nil, err
 	}
 	rogue := w.RogueWallet(0)
+	branchTip := map[int]ref.Hash{}
 	for i := 0; i < c.N; i++ {
+		if c.Shape == "forked" && i >= 1 {
+			// 2-3 branches growing from the first vertex, extended in turn: several tips persist, each with private
+			// ancestors and a shared trunk
+			b := 2 + c.N%2
+			tip, ok := branchTip[i%b]
+			if !ok {
+				tip = w.Arch.Order[1]
+			}
+			tx := w.MakeTx(0, 1+i%3, spice.New(1, 0), 0)
+			v := w.Craft(rogue, tx, tip, tip, 0)
+			if res := w.DeliverVertex(0, v); res.Err != nil {
+				return w, fmt.Errorf("build forked %d: %w", i, res.Err)
+			}
+			branchTip[i%b] = v.Hash
+			continue
+		}
 		if c.Shape == "wide" && i >= 2 {
 			// rogue-sealed transfer on two different known vertices: several tips, two-parent joins
 			ord := w.Arch.Order
@@ -191,7 +209,7 @@ func c08Run(c c08Case) (sig, msg string, nontrivial bool, inconclusive string) {
 	if cc != nil {
 		nontrivial = cc.triggered() && c.K < ancN-1
 	} else {
-		nontrivial = opErr != nil || c.Op == "truncate"
+		nontrivial = opErr != nil || c.Op == "truncate" || c.Shape == "forked"
 	}
 	_ = early
 	after := sim.SettledParkedWalkers()
@@ -400,10 +418,10 @@ func TestC08(t *testing.T) {
 		if thorough() {
 			sizes = []int{1, 2, 3, 5, 8, 13}
 		}
-		for _, shape := range []string{"chain", "wide"} {
+		for _, shape := range []string{"chain", "wide", "forked"} {
 			for _, sz := range sizes {
 				for _, op := range c08CancelOps {
-					for k := 0; k <= sz+1; k++ {
+					for k := -1; k <= sz+1; k++ {
 						idx++
 						if idx%n != sh {
 							continue
@@ -446,13 +464,13 @@ func TestC08(t *testing.T) {
 			switch {
 			case kind <= 6:
 				c.Op = rapid.SampledFrom(c08CancelOps).Draw(rt, "op")
-				c.Shape = rapid.SampledFrom([]string{"chain", "wide"}).Draw(rt, "shape")
+				c.Shape = rapid.SampledFrom([]string{"chain", "wide", "forked", "forked"}).Draw(rt, "shape")
 				c.N = rapid.IntRange(2, 60).Draw(rt, "n")
-				c.K = rapid.IntRange(0, c.N+1).Draw(rt, "k")
+				c.K = rapid.IntRange(-1, c.N+1).Draw(rt, "k")
 			case kind == 7:
 				c = c08Case{Op: "overflow", Shape: "chain", N: rapid.IntRange(1, 20).Draw(rt, "n"), K: -1}
 			default:
-				c = c08Case{Op: "streamwriter", Shape: rapid.SampledFrom([]string{"chain", "wide"}).Draw(rt, "shape"),
+				c = c08Case{Op: "streamwriter", Shape: rapid.SampledFrom([]string{"chain", "wide", "forked"}).Draw(rt, "shape"),
 					N: rapid.IntRange(120, 400).Draw(rt, "n"), K: -1,
 					WOp: rapid.SampledFrom([]string{"createleaf", "addleaf"}).Draw(rt, "wop")}
 				c.J = rapid.IntRange(0, c.N).Draw(rt, "j")
